@@ -23,42 +23,77 @@ def _strip(node: ast.AST) -> ast.AST:
     return node
 
 
-def eval_pred(test: ast.AST, env: Dict[str, object]):
-    """Evaluate a range predicate over one point of the finite ordering domain.  env maps normalised atom
-    text to a number / set.  Anything outside comparisons and boolean connectives fails closed."""
+class _Unknown(Exception):
+    def __init__(self, key: str):
+        self.key = key
+
+
+def eval_pred(test: ast.AST, env: Dict[str, object], unknown: Dict[str, bool] = None):
+    """Evaluate a range predicate over one point of the finite ordering domain.  env maps normalised atom text to a
+    number / set.  Sub-predicates that are not comparisons of the candidate against the bounds are *unknown atoms*:
+    they take their truth value from `unknown` (all valuations are enumerated by the caller)."""
+    unknown = unknown if unknown is not None else {}
     test = _strip(test)
+    k = norm(test)
+    if k in unknown:
+        return unknown[k]
     if isinstance(test, ast.BoolOp):
-        vals = [eval_pred(v, env) for v in test.values]
+        vals = [eval_pred(v, env, unknown) for v in test.values]
         return all(vals) if isinstance(test.op, ast.And) else any(vals)
     if isinstance(test, ast.UnaryOp) and isinstance(test.op, ast.Not):
-        return not eval_pred(test.operand, env)
+        return not eval_pred(test.operand, env, unknown)
     if isinstance(test, ast.Compare):
-        left = _atom(test.left, env)
-        res = True
-        for op, comp in zip(test.ops, test.comparators):
-            right = _atom(comp, env)
-            if isinstance(op, ast.Lt):
-                r = left < right
-            elif isinstance(op, ast.LtE):
-                r = left <= right
-            elif isinstance(op, ast.Gt):
-                r = left > right
-            elif isinstance(op, ast.GtE):
-                r = left >= right
-            elif isinstance(op, ast.Eq):
-                r = left == right
-            elif isinstance(op, ast.NotEq):
-                r = left != right
-            elif isinstance(op, ast.In):
-                r = left in right
-            elif isinstance(op, ast.NotIn):
-                r = left not in right
-            else:
-                raise AnalysisError(f'unsupported comparison operator in range test: {norm(test)}')
-            res = res and r
-            left = right
-        return res
-    raise AnalysisError(f'unsupported construct in range test: {norm(test)}')
+        try:
+            left = _atom(test.left, env)
+            res = True
+            for op, comp in zip(test.ops, test.comparators):
+                right = _atom(comp, env)
+                if isinstance(op, ast.Lt):
+                    r = left < right
+                elif isinstance(op, ast.LtE):
+                    r = left <= right
+                elif isinstance(op, ast.Gt):
+                    r = left > right
+                elif isinstance(op, ast.GtE):
+                    r = left >= right
+                elif isinstance(op, ast.Eq):
+                    r = left == right
+                elif isinstance(op, ast.NotEq):
+                    r = left != right
+                elif isinstance(op, ast.In):
+                    r = left in right
+                elif isinstance(op, ast.NotIn):
+                    r = left not in right
+                else:
+                    raise _Unknown(k)
+                res = res and r
+                left = right
+            return res
+        except _Unknown:
+            raise _Unknown(k)
+    raise _Unknown(k)
+
+
+def eval_pred_all(test: ast.AST, env: Dict[str, object]) -> Tuple[List[bool], List[str]]:
+    """All results of the predicate over every valuation of its unknown atoms (<= 5 atoms)."""
+    unknown: Dict[str, bool] = {}
+    while True:
+        try:
+            eval_pred(test, env, unknown)
+            break
+        except _Unknown as u:
+            if u.key in unknown or len(unknown) >= 5:
+                raise AnalysisError(f'range test too irregular to decide: {norm(test)[:80]}')
+            unknown[u.key] = False
+    keys = list(unknown)
+    results = []
+    for mask in range(2 ** len(keys)):
+        val = {k: bool(mask >> i & 1) for i, k in enumerate(keys)}
+        try:
+            results.append(eval_pred(test, env, val))
+        except _Unknown as u:
+            raise AnalysisError(f'range test too irregular to decide: {u.key[:80]}')
+    return results, keys
 
 
 def _atom(node: ast.AST, env):
@@ -70,7 +105,9 @@ def _atom(node: ast.AST, env):
         inner = _atom(node.args[0], env)
         if isinstance(inner, (set, list)):
             return (min if dotted_name(node.func) == 'min' else max)(inner)
-    raise AnalysisError(f'range test mentions {k!r}, which is not the candidate value or a declared bound')
+    if isinstance(node, ast.Constant) and isinstance(node.value, (int, float)) and not isinstance(node.value, bool):
+        raise _Unknown(k)
+    raise _Unknown(k)
 
 
 def mentions(test: ast.AST, texts: Set[str]) -> bool:
@@ -117,6 +154,24 @@ def check_reader_arm(ctx, fn: FuncInfo, clsname: str, kind: str) -> None:
     found_tests: List[ast.If] = []
     stores: List[Tuple[ast.stmt, str]] = []
 
+    local_defs: Dict[str, ast.AST] = {}
+    for n in ast.walk(arm):
+        if isinstance(n, ast.Assign) and len(n.targets) == 1 and isinstance(n.targets[0], ast.Name) and n.targets[0].id != 'New_val':
+            local_defs.setdefault(n.targets[0].id, n.value)
+            if sum(1 for m in ast.walk(arm) if isinstance(m, ast.Assign) and norm(m.targets[0]) == n.targets[0].id) > 1:
+                local_defs[n.targets[0].id] = None
+
+    def _expand_locals(test: ast.AST) -> ast.AST:
+        import copy
+
+        class Sub(ast.NodeTransformer):
+            def visit_Name(self, node):
+                v = local_defs.get(node.id)
+                if v is not None and isinstance(node.ctx, ast.Load):
+                    return Sub().visit(copy.deepcopy(v))
+                return node
+        return ast.fix_missing_locations(Sub().visit(copy.deepcopy(test)))
+
     def is_range_test(test: ast.AST) -> bool:
         names = {norm(n) for n in ast.walk(test)}
         return 'New_val' in names and bool(names & (env_names - {'New_val'}))
@@ -124,13 +179,27 @@ def check_reader_arm(ctx, fn: FuncInfo, clsname: str, kind: str) -> None:
     def walk(stmts, state: str) -> Optional[str]:
         """state in {'unknown','inrange','outofrange'}; returns state after, None if no fall-through."""
         for st in stmts:
-            if isinstance(st, ast.If) and is_range_test(st.test):
+            if isinstance(st, ast.If) and is_range_test(_expand_locals(st.test)):
                 found_tests.append(st)
-                acc = [not eval_pred(st.test, e) for e, _ in envs]   # acceptance if test is a *reject* test
-                if acc == expected_accept:
+                test_x = _expand_locals(st.test)
+                per_point = [eval_pred_all(test_x, e) for e, _ in envs]
+                extra = per_point[0][1]
+                nval = len(per_point[0][0])
+                accs = [[not per_point[i][0][v] for i in range(len(envs))] for v in range(nval)]
+                acc = accs[0]
+                if all(a == expected_accept for a in accs):
                     sb, so = 'outofrange', 'inrange'
-                elif [not a for a in acc] == expected_accept:
+                elif all([not x for x in a] == expected_accept for a in accs):
                     sb, so = 'inrange', 'outofrange'
+                elif extra and (any(a == expected_accept for a in accs) or any([not x for x in a] == expected_accept for a in accs)):
+                    rej = any(a == expected_accept for a in accs)
+                    badv = next(a for a in accs if (a if rej else [not x for x in a]) != expected_accept)
+                    badacc = badv if rej else [not x for x in badv]
+                    w = [lab for (e, lab), a, x in zip(envs, badacc, expected_accept) if a != x]
+                    ctx.bad('V2', f'ReadParameter/{clsname}/boundary', f'{fn.module.rel}:{st.lineno}',
+                            f'acceptance also depends on `{"`, `".join(x[:60] for x in extra)}`: for some outcome of it a value '
+                            f'{", ".join(w)} is decided wrongly (the accept set must be exactly the closed declared range)')
+                    sb, so = ('outofrange', 'inrange') if rej else ('inrange', 'outofrange')
                 else:
                     wrong = [lab for (e, lab), a, x in zip(envs, acc, expected_accept) if a != x]
                     wrong2 = [lab for (e, lab), a, x in zip(envs, acc, expected_accept) if (not a) != x]
@@ -180,6 +249,28 @@ def check_reader_arm(ctx, fn: FuncInfo, clsname: str, kind: str) -> None:
         return state
 
     walk(arm.body, 'unknown')
+    # V9: an accepted user value is stored unless it equals the *current* value (nothing to change)
+    first_store_line = min((st.lineno for st, _ in stores), default=10 ** 9)
+    for rt in [n for n in ast.walk(arm) if isinstance(n, ast.Return) and n.lineno < first_store_line]:
+        tests = [norm(t) for t, pol in guards_of(rt, arm) if pol]
+        inner = tests[-1] if tests else ''
+        same_as_current = inner in (f'New_val == {P}.value', f'{P}.value == New_val')
+        same_as_default = inner in (f'New_val == {P}.DefaultValue', f'{P}.DefaultValue == New_val')
+        key = f'ReadParameter/{clsname}/early-return:{inner[:50]}'
+        w = f'{fn.module.rel}:{rt.lineno}'
+        if same_as_current:
+            ctx.ok('V9', key, w, 'returns only when the input equals the current value')
+        elif same_as_default and clsname == 'intParameter':
+            # sound only while every integer declaration starts at its default (checked over the registry below)
+            offenders = _int_decls_not_at_default(ctx)
+            ctx.check(not offenders, 'V9', key, w,
+                      f'the integer reader returns without storing when the input equals DefaultValue, but {offenders[:3]} start at a '
+                      f'value different from their default: a user who supplies the default is ignored',
+                      fact='every integer declaration starts at its DefaultValue (or has none)')
+        else:
+            ctx.bad('V9', key, w, f'the reader returns before storing a user value under the guard `{inner or "(none)"}`: a valid '
+                                  f'user-supplied figure (e.g. one equal to the declared default of a parameter that starts at the '
+                                  f'-1 "not provided" sentinel) is silently dropped')
     ctx.require(found_tests, f'{clsname} arm: no range test found (anchor vanished)')
     ctx.require(stores, f'{clsname} arm: no store to {P}.value found (anchor vanished)')
     for st, state in stores:
@@ -194,6 +285,24 @@ def check_reader_arm(ctx, fn: FuncInfo, clsname: str, kind: str) -> None:
         for t in found_tests:
             ctx.ok('V2', f'ReadParameter/{clsname}/boundary', f'{fn.module.rel}:{t.lineno}',
                    f'`{norm(t.test)}` accepts exactly: ' + ', '.join(lab for (_, lab), x in zip(envs, expected_accept) if x))
+
+
+def _int_decls_not_at_default(ctx) -> List[str]:
+    reg = get_registry(ctx.repo)
+    out = []
+    for d in reg.inputs():
+        if d.kind != 'intParameter' or 'value' not in d.args or d.args.get('DefaultValue') is None:
+            continue
+        v, dv = d.args['value'], d.args['DefaultValue']
+        if isinstance(v, EnumRef):
+            v = reg.enums.int_value(v.enum, v.member)
+        if isinstance(dv, EnumRef):
+            dv = reg.enums.int_value(dv.enum, dv.member)
+        if isinstance(v, Unfolded) or isinstance(dv, Unfolded):
+            continue
+        if v != dv:
+            out.append(f'{d.owner}.{d.attr}')
+    return out
 
 
 def _check_raise_names_param(ctx, fn: FuncInfo, stmts, clsname: str) -> None:
@@ -587,6 +696,9 @@ def run(ctx) -> None:
                    'input equals the current/default value); -1 below a non-negative Min is the documented sentinel')
     ctx.rule('V7', 'the value tested is the user value (no lossy coercion before the test)')
     ctx.rule('V8', 'special-case stores derived from the raw text come after the shared reader')
+    ctx.rule('V9', 'an accepted user value is stored unless it equals the current value: early returns in the numeric arms are '
+                   'guarded by `input == current value` (integer arm: `== DefaultValue` is sound only while every integer '
+                   'declaration starts at its default, checked over the registry)')
     fn = ctx.repo.function('geophires_x/Parameter.py', 'ReadParameter')
     check_reader_arm(ctx, fn, 'floatParameter', 'float')
     check_reader_arm(ctx, fn, 'intParameter', 'int')
